@@ -628,7 +628,9 @@ func c10Globs(c *core.Ctx, dir string) {
 		}
 	}
 	_ = inDir
-	pats := []string{"*.journal", "f?.journal", "f[12].journal", "sub/*.journal", "**/*.journal", "<->/*.journal", "none*.journal"}
+	pats := []string{"*.journal", "f?.journal", "f[12].journal", "sub/*.journal", "**/*.journal", "<->/*.journal", "none*.journal",
+		// patterns whose only match can be the including file itself
+		"r*.journal", "s1*.journal"}
 	expect := func(pattern, from string) []string {
 		base := filepath.Dir(from) // "." or "sub"
 		var all []string
@@ -657,6 +659,10 @@ func c10Globs(c *core.Ctx, dir string) {
 				ok = true
 			case "none*.journal":
 				ok = false
+			case "r*.journal":
+				ok = rel == "r.journal"
+			case "s1*.journal":
+				ok = rel == "s1.journal"
 			}
 			if ok && f != from {
 				out = append(out, f)
